@@ -1182,6 +1182,7 @@ def honest_family(run, replay=None):
         runs += [[dict(code='right', mode='immediate', nreq=1)] for _ in range(nimm)]
         # pair-verify again inside the session (V3V4 from a session, HonestRun.tla), and keep-alives during the hand-over
         # (Unsolicited): the switch is a race of a few microseconds, many runs
+        runs += [[dict(code='right', mode='patient', nreq=1, probe=True)] for _ in range(40 if thorough else 8)]
         nrv = 300 if thorough else 60
         runs += [[dict(code='right', mode='patient', nreq=1, rv=3 + i % 3, ka=False)] for i in range(nrv)]
         runs += [[dict(code='right', mode='patient', nreq=2, rv=i % 3, ka=True)] for i in range(nrv)]
